@@ -469,6 +469,122 @@ func gen(g *core.G) {
 	for i := 0; i < nr; i++ {
 		emit(g, randBytes(g.Rng))
 	}
+
+	// (iv) Object init hashes whose VALIDATION branches are all visited (after the random streams: draws nothing before them)
+	objectInits(g)
+}
+
+// ---- Object init hashes: every validation branch of objectType.InitFromHash ------------------------------------
+//
+// The members an `equality` / `serialization` entry can name: an attribute (required, with a value, derived,
+// given_or_derived), a constant, a function — each declared here, in the parent, or in the parent's parent — an unknown
+// name, a name twice; members that override with and without `override`, a final member, a member of the other kind, a
+// constant that is also an attribute; `equality_include_type`, `checks` and `annotations` of right and wrong shape.
+// Each text must end in a type or a REPORTED issue (predicates resolve-fault of the parse op, resolved-type-faults of
+// the resolve op).
+
+const oiParent = `Object[{attributes => {pa => Integer, pv => {type => String, value => 'v'}, pfin => {type => Integer, final => true}}, ` +
+	`constants => {pc => 1}, functions => {pf => Callable[[], Integer]}, equality => [pa]}]`
+
+var oiParents = []string{"", "parent => " + oiParent, "parent => Object[{parent => " + oiParent + "}]", "parent => Object[{}]", "parent => My::P2", "parent => 'My::P2'", "parent => Integer", "parent => X", "parent => 'X'", "parent => Object[{parent => X}]", "parent => 'Integer['"}
+
+var oiAttributes = []string{"", "attributes => {a => Integer}",
+	"attributes => {a => Integer, b => {type => String, value => 'x'}, d => {type => Integer, kind => derived}, g => {type => Integer, kind => given_or_derived}}",
+	"attributes => {a => 'Integer', o => Optional[String]}",
+	"attributes => {pa => Integer}", "attributes => {pa => {type => Integer, override => true}}", "attributes => {pa => {type => String, override => true}}",
+	"attributes => {pfin => {type => Integer, override => true}}", "attributes => {pf => {type => Integer, override => true}}", "attributes => {pc => {type => Integer, override => true}}",
+	"attributes => {nope => {type => Integer, override => true}}", "attributes => {a => {type => Integer, kind => constant}}", "attributes => {a => {type => Integer, kind => constant, value => 1}}",
+	"attributes => {a => {type => Integer, value => 'x'}}", "attributes => {a => {type => Integer, kind => derived, value => 1}}", "attributes => {a => {type => Integer, final => true, kind => constant, value => 1}}",
+	"attributes => {a => {type => Integer, final => false, kind => constant, value => 1}}", "attributes => {a => 'Integer['}", "attributes => {a => 'Nope'}", "attributes => {a => {type => Integer, annotations => 1}}"}
+
+var oiConstants = []string{"", "constants => {c => 1}", "constants => {a => 1}", "constants => {pa => 1}", "constants => {pc => 2}", "constants => {pf => 1}", "constants => {pfin => 1}", "constants => {c => Integer}"}
+
+var oiFunctions = []string{"", "functions => {f => Callable[[], Integer]}", "functions => {f => 'Callable'}", "functions => {f => {type => Callable[[], Integer]}}", "functions => {a => Callable}",
+	"functions => {c => Callable}", "functions => {pf => Callable[[], Integer]}", "functions => {pf => {type => Callable[[], Integer], override => true}}", "functions => {pf => {type => Callable[[], String], override => true}}",
+	"functions => {pa => {type => Callable, override => true}}", "functions => {nope => {type => Callable, override => true}}", "functions => {f => {type => Callable, final => true}}", "functions => {f => Integer}", "functions => {f => 'Callable['}"}
+
+// the names an equality / serialization list can hold
+var oiNames = []string{"a", "b", "d", "g", "o", "c", "f", "pa", "pv", "pfin", "pc", "pf", "zz", "'a'", "1", "Integer"}
+
+var oiTails = []string{"equality_include_type => false", "equality_include_type => true", "equality_include_type => 1", "checks => 1", "checks => {}", "checks => 'x'", "annotations => {}", "annotations => 1",
+	"annotations => {Foo => {}}", "annotations => {My::P1 => {a => 1}}", "annotations => {Integer => {}}", "name => 'N'", "name => 1", "type_parameters => {a => Integer}", "type_parameters => {pa => Integer}",
+	"type_parameters => {from => Integer}", "type_parameters => {from => {type => Integer, override => true}}", "type_parameters => {a => 'Integer['}", "type_parameters => {a => 1}", "type_parameters => {a => {type => 1}}"}
+
+func oiLists(key string) []string {
+	var r []string
+	for _, n := range oiNames {
+		r = append(r, key+" => ["+n+"]", key+" => [a, "+n+"]", key+" => ["+n+", a]", key+" => [b, "+n+"]")
+		if key == "equality" {
+			r = append(r, key+" => "+n)
+		}
+	}
+	return append(r, key+" => []", key+" => [a, b, g, a]", key+" => [pa, pv, a, b]", key+" => [pv, pa]", key+" => [[a]]", key+" => {a => 1}", key+" => 1", key+" => undef")
+}
+
+func oiJoin(es ...string) string {
+	var r []string
+	for _, e := range es {
+		if e != "" {
+			r = append(r, e)
+		}
+	}
+	return strings.Join(r, ", ")
+}
+
+func oiEmit(g *core.G, body string, all bool) {
+	emitR(g, "Object[{"+body+"}]")
+	if all {
+		emit(g, "type X = Object{"+body+"}")
+		emit(g, "type X = {"+body+"}")
+		emitR(g, "Array[Object[{"+body+"}]]")
+	}
+}
+
+func objectInits(g *core.G) {
+	// the member structure alone: every parent x attributes x constants x functions
+	for _, p := range oiParents {
+		for _, a := range oiAttributes {
+			for _, c := range oiConstants {
+				for _, f := range oiFunctions {
+					oiEmit(g, oiJoin(p, a, c, f), false)
+				}
+			}
+		}
+	}
+	// equality / serialization lists over the structures that declare every kind of member, here and above
+	eqs, sers := oiLists("equality"), oiLists("serialization")
+	for _, p := range oiParents[:4] {
+		for _, a := range oiAttributes[:4] {
+			for _, cf := range []string{"", "constants => {c => 1}", "functions => {f => Callable[[], Integer]}", "constants => {c => 1}, functions => {f => Callable[[], Integer]}"} {
+				base := oiJoin(p, a, cf)
+				for _, e := range eqs {
+					oiEmit(g, oiJoin(base, e), true)
+				}
+				for _, e := range sers {
+					oiEmit(g, oiJoin(base, e), true)
+				}
+				for _, tl := range oiTails {
+					oiEmit(g, oiJoin(base, tl), true)
+					oiEmit(g, oiJoin(base, "equality => [a]", tl), false)
+				}
+			}
+		}
+	}
+	// random combinations of everything, in random entry order
+	for i := 0; i < 1500*g.Scale; i++ {
+		es := []string{oiParents[g.Rng.Intn(len(oiParents))], oiAttributes[g.Rng.Intn(len(oiAttributes))], oiConstants[g.Rng.Intn(len(oiConstants))], oiFunctions[g.Rng.Intn(len(oiFunctions))]}
+		if g.Rng.Intn(3) > 0 {
+			es = append(es, eqs[g.Rng.Intn(len(eqs))])
+		}
+		if g.Rng.Intn(3) > 0 {
+			es = append(es, sers[g.Rng.Intn(len(sers))])
+		}
+		if g.Rng.Intn(2) == 0 {
+			es = append(es, oiTails[g.Rng.Intn(len(oiTails))])
+		}
+		g.Rng.Shuffle(len(es), func(i, j int) { es[i], es[j] = es[j], es[i] })
+		oiEmit(g, oiJoin(es...), g.Rng.Intn(4) == 0)
+	}
 }
 
 // randShape draws an argument list with nested arrays over the leaves
